@@ -61,7 +61,51 @@ def _cls_alias_side(data, finding):
     if data.get('kind') != 'side-differs' or data.get('side') not in ('local', 'remote'):
         return False
     got, want = dec(data['got']), dec(data['l' if data['side'] == 'local' else 'r'])
-    return canon(got) != canon(want) and canon(norm_alias(got)) == canon(norm_alias(want))
+    if not (canon(got) != canon(want) and canon(norm_alias(got)) == canon(norm_alias(want))):
+        return False
+    # the finding is about changes the differ cannot see: at every differing place the result must still hold the BASE value
+    # (a value taken from the other side, or from anywhere else, is something new)
+    base = dec(data['b'])
+
+    def leaves(x, y, path=()):
+        if isinstance(x, dict) and isinstance(y, dict):
+            for k in x:
+                if k in y:
+                    yield from leaves(x[k], y[k], path + (k,))
+        elif isinstance(x, list) and isinstance(y, list):
+            for i, (a, b) in enumerate(zip(x, y)):
+                yield from leaves(a, b, path + (i,))
+        elif canon(x) != canon(y):
+            yield path, x
+
+    def base_values(doc, key, acc):
+        if isinstance(doc, dict):
+            for k, v in doc.items():
+                if k == key and not isinstance(v, (dict, list)):
+                    acc.append(v)
+                base_values(v, key, acc)
+        elif isinstance(doc, list):
+            for v in doc:
+                if key is None and not isinstance(v, (dict, list)):
+                    acc.append(v)
+                base_values(v, key, acc)
+        return acc
+
+    for path, g in leaves(got, want):
+        v, ok = base, True
+        for k in path:
+            try:
+                v = v[k]
+            except (KeyError, IndexError, TypeError):
+                ok = False
+                break
+        if ok and canon(v) == canon(g):
+            continue
+        # list indices may have shifted: the value has to occur in base under the same key (or as an item of a list)
+        last = path[-1] if path and isinstance(path[-1], str) else None
+        if not any(canon(x) == canon(g) for x in base_values(base, last, [])):
+            return False
+    return True
 
 
 @vlib.classifier('takemax-schema')
